@@ -11,10 +11,9 @@ per (metric name, peer):
                forgotten by a failure check since it arrived;
 * `count`    — how many metrics arrived since the last removal / forgetting
                (the window holds `min cap count` of them);
-* `reported` — the peer was alerted for this metric name and has not renewed it
-               since: an *unexpired* arrival is a renewal and clears the flag; an
-               arrival that is already expired replaces the stale metric but renews
-               nothing (alerting again for it would be "repeatedly").
+* `reported` — an alert was raised for this latest metric (since it arrived); every
+               newer arrival is a renewal: it becomes the latest metric and, if it
+               expires without renewal in its turn, is reported once itself.
 "Stale" = latest is present and expired. A failure check *covers* (name, peer)
 when it is `CheckPeers(l)` with the peer in `l`, or a tick of the watch loop
 with the peer in the known peerset, or a tick with no peerset function (then
@@ -143,8 +142,7 @@ def specStep (t : SState) (op : Op) (o : Obs) : SState :=
   | .add m =>
     let k : Key := (m.name, m.peer)
     let e := t.key k
-    { setKey t k { e with latest := some m, count := e.count + 1,
-                          reported := if m.expired then e.reported else false } with
+    { setKey t k { e with latest := some m, count := e.count + 1, reported := false } with
       seen := if t.seen.contains k then t.seen else t.seen ++ [k] }
   | .rmPeer p =>
     { t with key := fun k => if k.2 = p then { t.key k with latest := none, count := 0, reported := false } else t.key k }
@@ -173,9 +171,14 @@ def clauses (i : Input) (orc : Nat → Nat → Nat → Bool) (out : List Obs) : 
 
 def holds (i : Input) (orc : Nat → Nat → Nat → Bool) (out : List Obs) : Bool := (clauses i orc out).all (·.2)
 
-/-- Well-formed history: arrival ids are distinct. -/
+/-- Well-formed history: the id of an arrival is its position in the history (so ids are
+    distinct, and later arrivals have larger ids — they stand for `ReceivedAt`). -/
 def ids (ops : List Op) : List Nat := ops.filterMap (fun op => match op with | .add m => some m.id | _ => none)
-def wf (i : Input) : Bool := (ids i.ops).Nodup && decide (0 < i.cap)
+def idsAt : Nat → List Op → Bool
+  | _, [] => true
+  | i, .add m :: ops => m.id == i && idsAt (i + 1) ops
+  | i, _ :: ops => idsAt (i + 1) ops
+def wf (i : Input) : Bool := (ids i.ops).Nodup && idsAt 0 i.ops && decide (0 < i.cap)
 
 /-! ### Classification of failing instances (signatures of known findings)
 
@@ -184,6 +187,7 @@ bookkeeping clauses fail, so that a recorded finding can be matched narrowly.
 * `checkall-invalid` — tick without a peerset function, latest metric not valid
 * `counter-kept`     — an earlier alert for this (name, peer) was not followed by a
                        forgetting check, and the metric was renewed/removed since
+                       (signature of finding K09a, repaired in /repo by e17258f)
 * `other`
 -/
 def tagOf (t : SState) (op : Op) (k : Key) : String :=
